@@ -73,11 +73,12 @@ def set_and_capture(app, name, value, secret=None, via='response'):
     return raw_val, status
 
 
-def read_back(app, name, raw_val, secret=None):
-    """Send the stored cookie-value back; returns (value seen by get_cookie, loads calls)."""
+def read_back(app, name, raw_val, secret=None, rewrite=None):
+    """Send the stored cookie-value back; returns (value seen by get_cookie, loads calls).  With `rewrite` the handler first
+    reads the cookie, then replaces the request's Cookie header by `rewrite` and reads again (the second answer is returned)."""
     import ombott.common_helpers as ch
     env = base_environ(PATH_INFO='/get', HTTP_COOKIE=(name.encode('latin1') + b'=' + raw_val).decode('latin1'))
-    app._verif = (name, None, secret, None)
+    app._verif = (name, None, secret, rewrite)
     cp = CountingPickle(ch.pickle.real if isinstance(ch.pickle, CountingPickle) else ch.pickle)
     ch.pickle = cp
     try:
@@ -107,8 +108,11 @@ def make_app():
 
     @app.route('/get')
     def g():
-        name, _, secret, _ = app._verif
+        name, _, secret, rewrite = app._verif
         v = app.request.get_cookie(name, secret=secret)
+        if rewrite is not None:
+            app.request['HTTP_COOKIE'] = rewrite
+            v = app.request.get_cookie(name, secret=secret)
         return json.dumps({'present': v is not None, 'value': v if isinstance(v, (str, type(None))) else repr(v)})
     return app
 
@@ -220,6 +224,26 @@ def run(chk):
                 attack('sig-swap-other-message', sec, name, w2[:q2] + w[q:], -1, w)
                 if name2 != name:
                     attack('other-name', sec, name, w2, -1, w)                      # genuine cookie of another name presented under this one
+    # long secrets that differ only far from their beginning (per-user keys derived as master + ':' + user) are different secrets
+    master = 'm' * 64
+    for sa, sb in ((master + ':alice', master + ':bob'), ('k' * 70, 'k' * 71), (master * 2 + 'x', master * 2 + 'y')):
+        rawa, _st = set_and_capture(app, 'lk', {'user': 'alice'}, secret=sa, via='response')
+        if rawa is None:
+            continue
+        c = SimpleCookie()
+        c.load((b'lk=' + rawa).decode('latin1'))
+        attack('other-long-secret', sb, 'lk', c['lk'].value, -1, None)
+    # the Cookie header of a request is rewritten through the request object (request['HTTP_COOKIE'] = ...): what was verified
+    # before says nothing about the new header
+    for sec, name, v, w in pool[:4]:
+        q = w.index('?')
+        for cls, edited in (('rewrite-tampered', w[:q + 2] + ('A' if w[q + 2] != 'A' else 'B') + w[q + 3:]), ('rewrite-truncated', w[:q]), ('rewrite-removed', None)):
+            res, loads = read_back(app, name, quote_for_header(w), secret=sec,
+                                   rewrite=(name.encode('latin1') + b'=' + quote_for_header(edited)).decode('latin1') if edited is not None else 'other=1')
+            present = isinstance(res, dict) and res['present']
+            recs.append({'kind': 'signed', 'cls': cls, 'genuine': False, 'serverSigned': False, 'present': present, 'valueOk': False,
+                         'loads': max(0, loads - 1), 'pos': -1, 'edited': str(edited)[:80], 'name': name})
+            chk.count(1, (cls, name))
     # forged payload signed with a guessed (wrong) secret
     for sec, name, v, w in pool[:3]:
         forged = touni(cookie_encode((name, {'user': 'root'}), 'guess'))
